@@ -241,3 +241,42 @@ def rv_operands(rv):
     if k == "aggregate":
         return rv["ops"]
     return []
+
+
+def extra_state_writes(prog, bodies):
+    """Fields of the parser-state structs that are neither template maps, sub-parsers nor the
+    allowed_versions configuration, together with every write to them in `bodies`.
+    -> {(adt, field): {"ty": .., "writes": [(body path, site)]}}"""
+    out = {}
+    for adt in PARSER_ADTS + (TOP_ADT,):
+        a = prog.adts.get(adt)
+        if not a:
+            continue
+        for f in a["variants"][0]["fields"]:
+            ty = f["ty"]
+            if ty.startswith(MAP_TYPES) or ty in PARSER_ADTS or f["name"] == "allowed_versions":
+                continue
+            out[(adt, f["name"])] = {"ty": ty, "writes": []}
+    if not out:
+        return out
+    for b in bodies.values():
+        if b.derived:
+            continue
+        for blk, i, s in b.stmts():
+            if s["k"] != "assign":
+                continue
+            cands = [("assign", s["place"])]
+            rv = s["rv"]
+            if rv["k"] in ("ref", "rawptr") and rv.get("bk", "mut") == "mut":
+                cands.append(("&mut", rv["place"]))
+            for how, pl in cands:
+                for e in pl.get("p", []):
+                    if e["k"] == "field" and (e.get("adt"), e.get("name")) in out:
+                        out[(e["adt"], e["name"])]["writes"].append((b.path, site(s["span"]), how))
+        for blk in sorted(b.live_blocks()):
+            t = b.term(blk)
+            if t["k"] == "call" and t["dest"].get("p"):
+                for e in t["dest"]["p"]:
+                    if e["k"] == "field" and (e.get("adt"), e.get("name")) in out:
+                        out[(e["adt"], e["name"])]["writes"].append((b.path, b.line(blk), "call-result"))
+    return out
